@@ -170,11 +170,12 @@ def run(unit, R, tier, only=None):
                 b["w"] = [_near(q, k) for k in range(n)]
                 b["tiny"] = [_tiny(q, k) for k in range(n)]
                 # the per-cell tables carry DIFFERENT row labels (default, reversed, offset, all equal): rows are matched by position
-                if q % 4 == 1:
+                lab = (q * (1 + kk % 3)) % 4          # first cell: default labels; later cells cycle through the other three
+                if lab == 1:
                     b = b.set_axis(list(range(n - 1, -1, -1)))
-                elif q % 4 == 2:
+                elif lab == 2:
                     b = b.set_axis(list(range(100, 100 + n)))
-                elif q % 4 == 3:
+                elif lab == 3:
                     b = b.set_axis([0] * n)
                 bdict[nm] = b
             barg = bdict
